@@ -2,30 +2,22 @@
 (***************************************************************************)
 (* Exhaustive model for BitOps.tla (C19).                                  *)
 (*                                                                         *)
-(* mode = "law":     the successors of the seed state enumerate every pair (a, b) of bit *)
-(*   sequences of equal length <= MaxLaw; the invariant Laws is the list   *)
-(*   of design laws the operators of BitOps must satisfy (boolean algebra, *)
-(*   slice-of-op = op-of-slices for every truth table and sub-range,       *)
-(*   counting / index / run laws, find-nth, chunking, splice + frame,      *)
-(*   validity-mask laws).  They guard against a wrong specification.       *)
-(*                                                                         *)
-(* mode = "builder": BooleanBufferBuilder as a *physical* machine (packed  *)
-(*   bytes + length, every call transcribed from builder/boolean.rs) run   *)
-(*   in lock step with the abstract effect BuilderEff of BitOps; the       *)
-(*   invariants say the packed bytes denote the abstract bits, the byte    *)
-(*   length is ceil(len / 8) and the padding bits of the last byte are     *)
-(*   zero (the representation invariant append_n / advance rely on).       *)
+(* Design laws of the operators: the states enumerate every pair (a, b) of *)
+(* bit sequences of equal length <= MaxLaw (seed -> PickA -> LawCase, two  *)
+(* steps so that all TLC workers share the evaluation); the invariant Laws *)
+(* is the list of laws the operators of BitOps must satisfy (boolean       *)
+(* algebra, slice-of-op = op-of-slices for every truth table and           *)
+(* sub-range, counting / index / run laws, find-nth, chunking, splice +    *)
+(* frame, validity-mask laws).  They guard against a wrong specification.  *)
+(* The packed BooleanBufferBuilder machine is in MC_BitBuilder.            *)
 (***************************************************************************)
 EXTENDS BitOps, TLC
 
-CONSTANTS MaxLaw,      \* longest sequence for the operator laws
-          MaxBits,     \* longest builder content
-          MaxArg       \* largest count argument of a builder call
+CONSTANTS MaxLaw       \* longest sequence for the operator laws
 
-VARIABLES mode, a, b,          \* law inputs
-          buf, blen, abs       \* physical bytes (as bits), physical length, abstract bits
+VARIABLES mode, a, b   \* "seed" / "pick" / "law", and the law inputs
 
-vars == <<mode, a, b, buf, blen, abs>>
+vars == <<mode, a, b>>
 
 BitSeqs(n) == UNION {[1..k -> Bit] : k \in 0..n}
 Tables(n) == [1..n -> Bit]
@@ -145,92 +137,9 @@ Laws == mode = "law" =>
   /\ L_Chunks /\ L_Splice /\ L_Validity /\ L_Iter
 
 ---------------------------------------------------------------------------
-(* Physical BooleanBufferBuilder (builder/boolean.rs); buf is the packed    *)
-(* MutableBuffer as a bit sequence, blen the builder's `len`                *)
-Ceil8(n) == ((n + 7) \div 8) * 8
-
-(* MutableBuffer::resize(new_len_bytes, value) seen at bit level             *)
-PResize(bf, nbits, v) == IF nbits >= Len(bf) THEN bf \o Fill(nbits - Len(bf), v) ELSE Sub(bf, 0, nbits)
-
-(* the last byte with its bits from `from` upward (0..7) set to v            *)
-LastByteFrom(bf, from, v) ==
-  [i \in 1..Len(bf) |-> IF i > Len(bf) - 8 + from THEN v ELSE bf[i]]
-
-PAdvance(bf, ln, k) ==
-  LET nl == ln + k IN
-  [buf |-> IF Ceil8(nl) > Len(bf) THEN PResize(bf, Ceil8(nl), 0) ELSE bf, len |-> nl]
-
-PSet(bf, i, v) == [bf EXCEPT ![i + 1] = v]
-
-RECURSIVE PSetAll(_, _, _, _)
-PSetAll(bf, at, s, i) ==     \* set_bit_raw for every true of s (append / append_slice)
-  IF i > Len(s) THEN bf ELSE PSetAll(IF s[i] = 1 THEN PSet(bf, at + i - 1, 1) ELSE bf, at, s, i + 1)
-
-PAppendSlice(bf, ln, s) ==
-  LET st == PAdvance(bf, ln, Len(s)) IN [buf |-> PSetAll(st.buf, ln, s, 1), len |-> st.len]
-
-PAppendNTrue(bf, ln, k) ==
-  LET nl == ln + k
-      b1 == IF ln % 8 # 0 THEN LastByteFrom(bf, ln % 8, 1) ELSE bf     \* pad last byte with 1s
-      b2 == PResize(b1, Ceil8(nl), 1)                                   \* resize(.., 0xFF)
-      b3 == IF nl % 8 # 0 THEN LastByteFrom(b2, nl % 8, 0) ELSE b2     \* clear remaining bits
-  IN [buf |-> b3, len |-> nl]
-
-PTruncate(bf, ln, k) ==
-  IF k > ln THEN [buf |-> bf, len |-> ln]
-  ELSE LET b1 == Sub(bf, 0, Ceil8(k))
-           b2 == IF k % 8 # 0 THEN LastByteFrom(b1, k % 8, 0) ELSE b1
-       IN [buf |-> b2, len |-> k]
-
-(* append_packed_range: advance, then apply |_a, b| b over the new range     *)
-PAppendPacked(bf, ln, s) ==
-  LET st == PAdvance(bf, ln, Len(s)) IN [buf |-> ApplyBin(st.buf, ln, s, Len(s), TRight), len |-> st.len]
-
-(* append_word(word, count): resize with zeros, OR the shifted word in      *)
-PAppendWord(bf, ln, w, c) ==
-  LET nl == ln + c
-      b1 == IF Ceil8(nl) > Len(bf) THEN PResize(bf, Ceil8(nl), 0) ELSE bf
-  IN [buf |-> [i \in 1..Len(b1) |-> IF i > ln /\ i <= nl /\ w[i - ln] = 1 THEN 1 ELSE b1[i]], len |-> nl]
-
-Step(st, eff) == /\ mode = "builder" /\ buf' = st.buf /\ blen' = st.len /\ abs' = eff /\ UNCHANGED <<mode, a, b>>
-
-Fits(k) == Len(abs) + k <= MaxBits
-
-A_Append      == \E v \in Bit : Fits(1) /\ Step(PAppendSlice(buf, blen, <<v>>), BuilderEff(abs, "append", 0, v, <<>>))
-A_AppendN     == \E k \in 0..MaxArg : \E v \in Bit : Fits(k) /\
-                 Step(IF v = 1 THEN PAppendNTrue(buf, blen, k) ELSE PAdvance(buf, blen, k), BuilderEff(abs, "append_n", k, v, <<>>))
-A_AppendSlice == \E s \in BitSeqs(MaxArg) : Fits(Len(s)) /\ Step(PAppendSlice(buf, blen, s), BuilderEff(abs, "append_slice", 0, 0, s))
-A_AppendPacked == \E s \in BitSeqs(MaxArg) : Fits(Len(s)) /\ Step(PAppendPacked(buf, blen, s), BuilderEff(abs, "append_packed", 0, 0, s))
-A_AppendWord  == \E w \in [1..MaxArg -> Bit] : \E c \in 0..MaxArg : Fits(c) /\
-                 Step(PAppendWord(buf, blen, w, c), BuilderEff(abs, "append_word", c, 0, w))
-A_SetBit      == \E i \in 0..(blen - 1) : \E v \in Bit : Step([buf |-> PSet(buf, i, v), len |-> blen], BuilderEff(abs, "set_bit", i, v, <<>>))
-A_Advance     == \E k \in 0..MaxArg : Fits(k) /\ Step(PAdvance(buf, blen, k), BuilderEff(abs, "advance", k, 0, <<>>))
-A_Truncate    == \E k \in 0..(MaxBits + 1) : Step(PTruncate(buf, blen, k), BuilderEff(abs, "truncate", k, 0, <<>>))
-A_Resize      == \E k \in 0..MaxBits :
-                 Step(IF k >= blen THEN PAdvance(buf, blen, k - blen) ELSE PTruncate(buf, blen, k), BuilderEff(abs, "resize", k, 0, <<>>))
-A_Finish      == Step([buf |-> <<>>, len |-> 0], BuilderEff(abs, "finish", 0, 0, <<>>))
-
-(* the packed bytes denote the abstract bits                                *)
-B_Refines  == mode = "builder" => blen = Len(abs) /\ Sub(buf, 0, blen) = abs
-(* what finish / finish_cloned hand out: ceil(len / 8) bytes                *)
-B_ByteLen  == mode = "builder" => Len(buf) = Ceil8(blen)
-(* padding bits of the last byte are zero                                   *)
-B_PadZero  == mode = "builder" => \A i \in (blen + 1)..Len(buf) : buf[i] = 0
-
----------------------------------------------------------------------------
-(* one seed state; PickA / LawCase fan out to every law input in two steps  *)
-(* (so that the laws are evaluated by all TLC workers), StartBuilder enters *)
-(* the builder machine                                                      *)
-Init == mode = "seed" /\ a = <<>> /\ b = <<>> /\ buf = <<>> /\ blen = 0 /\ abs = <<>>
-
-PickA == /\ mode = "seed" /\ mode' = "pick" /\ a' \in BitSeqs(MaxLaw) /\ UNCHANGED <<b, buf, blen, abs>>
-LawCase == /\ mode = "pick" /\ mode' = "law" /\ b' \in [1..Len(a) -> Bit] /\ UNCHANGED <<a, buf, blen, abs>>
-
-StartBuilder == mode = "seed" /\ mode' = "builder" /\ UNCHANGED <<a, b, buf, blen, abs>>
-
-Next == \/ PickA \/ LawCase \/ StartBuilder
-        \/ A_Append \/ A_AppendN \/ A_AppendSlice \/ A_AppendPacked \/ A_AppendWord
-        \/ A_SetBit \/ A_Advance \/ A_Truncate \/ A_Resize \/ A_Finish
-
+Init == mode = "seed" /\ a = <<>> /\ b = <<>>
+PickA == mode = "seed" /\ mode' = "pick" /\ a' \in BitSeqs(MaxLaw) /\ UNCHANGED b
+LawCase == mode = "pick" /\ mode' = "law" /\ b' \in [1..Len(a) -> Bit] /\ UNCHANGED a
+Next == PickA \/ LawCase
 Spec == Init /\ [][Next]_vars
 =============================================================================
